@@ -475,6 +475,8 @@ def _freeze_const(c):
         return ("promoted", c["promoted"], c["ty"])
     if "float" in c:
         return ("float", c["float"], c["ty"])
+    if "bits" in c:
+        return ("bits", int(c["bits"]), c["ty"])
     return ("opaque", c.get("dbg", ""), c["ty"])
 
 
